@@ -1,0 +1,13 @@
+//go:build !verif
+// +build !verif
+
+// Package verifhook provides named schedule and crash points used by the
+// verification harness. Without the build tag `verif` every function is an
+// empty, inlinable no-op.
+package verifhook
+
+// Point marks a schedule point (no-op without the verif tag).
+func Point(name string, id uint32) {}
+
+// Crash marks a crash point (no-op without the verif tag).
+func Crash(name string) {}
